@@ -684,8 +684,10 @@ def b_mesh(case, ctx):
     try:
         _mesh(case, ctx, False)
     except Violation as v:
-        if "|stale|" not in v.sig:
+        if not any(t in v.sig for t in ("|stale|", "|array_stale|", "|store_stale|")):
             raise
+        # localise: re-run with a hash check after every single mutation, so that the mutation which left the hash
+        # stale is named (whatever was or was not hashed in between in the original program)
         try:
             _mesh(case, _NullCtx(), True)
         except Violation as v2:
